@@ -76,6 +76,16 @@ CLAIMED['C12'] = dict(
         'Correspondence: the same real merges as C11 with distinct tokens per template cell, forced 3-probe cases of different sizes, int32/int64/uint32 tables, optional matrices in some probes. One OPEN known finding (single-x-column probes not kept apart).',
    note='scipy block_diag modelled by a list definition; index tables must be present in every probe (Merger requires them).',
    tech='Lean 4 theorems by induction over the probe list with running offsets + differential correspondence against /repo', ref='§5 C12')
+CLAIMED['C08'] = dict(
+   text='Theorems (exact arithmetic): after any reassignment history the merge map sends every cluster id 0..max to exactly the sorted set of templates its spikes came from, ids without spikes are the ones reported empty; a single-template cluster carries that template unchanged; a multi-template cluster carries, on the dominant template\'s channels, the spike-count-weighted mean of its templates\' channel-restricted waveforms (zero elsewhere), the dominant template having the largest count; coinciding assignments give cluster waveforms = template waveforms and n_clusters = n_templates. '
+        'Correspondence: real TemplateModel on datasets curated by random merge/split/reassign sequences (empty ids, count ties, shanks, whitening), merge_map / nan_idx / sparse_clusters.data / n_clusters / get_cluster_mean_waveforms.',
+   note='Per-template channel lists (C05) are observed on the real model and fed to the Lean model; the weighted mean is one correctly rounded division on generated values.',
+   tech='Lean 4 theorems (fold invariant over templates, exact rational weighted means) + differential correspondence against /repo', ref='§5 C08')
+CLAIMED['C09'] = dict(
+   text='Theorems over Rat: scaled spike amplitude = stored amplitude x largest channel peak-to-peak of the unwhitened template; per-id amplitude = mean over member spikes, NaN for EVERY id without spikes incl. the highest; peak-to-peak scales with non-negative factors, hence the rescaled waveform of an id has exactly its mean spike amplitude as peak amplitude; mean amplitudes per id present; argmax/argmin = first position of max/min (peak channels, peak/trough samples); depth = feature-weighted channel depth or NaN. '
+        'Correspondence: real get_amplitudes_true (both id spaces), templates/clusters_amplitudes, *_channels, templates_probes, *_waveforms_durations, get_depths on generated dense datasets with ids without spikes at first/middle/last position.',
+   note='Float rounding not modelled: generated values make each float operation exact or a single correctly rounded division; rescaled templates / curated-cluster chains compared with relative tolerance 1e-9 (stated, not hidden).',
+   tech='Lean 4 theorems over exact rationals (single Mathlib modules for ordered-field lemmas) + differential correspondence against /repo', ref='§5 C09')
 REASONS = {}
 
 checks = []
